@@ -59,3 +59,13 @@ REG.contract(T + "Term.__eq__", params={"other": T + "Term"}, returns="bool", ta
 
 FUNCTIONS += [T + "Term.__init__", T + "Term.__eq__"]
 ASSUMPTIONS += ["components (Variable / Call objects) are opaque values compared with ==; their __eq__/__hash__ are not verified here"]
+
+# ---- Response (C15): a single term, whose component is marked as the response ------------------
+REG.opaque_attr_types = dict(getattr(REG, "opaque_attr_types", {}), is_response="bool")
+REG.declare_class(T + "Response", {"term": T + "Term"})
+REG.contract(T + "Response.__init__", params={"term": T + "Term"}, tags=["C15"], modifies=["self.term"],
+             raises={"ValueError": "len(term.components) != 1"},
+             ensures=["self.term == term", "len(term.components) == 1", "term.components[0].is_response == True",
+                      "term.components == old(term.components)"])
+FUNCTIONS += [T + "Response.__init__"]
+ASSUMPTIONS += ["attributes assigned to opaque component objects (is_response) live in a per-attribute heap array"]
